@@ -1,5 +1,6 @@
 //! History-side property workloads (C03..C10, C14, C15).
 
+use crate::props::concurrency_probe;
 use crate::gen::{self, Rec};
 use crate::hist::{History, Init, RunOpts};
 use crate::model::*;
@@ -210,32 +211,7 @@ pub fn builder_plans(ctx: &mut Ctx, opts: &RunOpts) {
             let mut r = rng_for(ctx.seed, &["rand-builder"], i);
             let (kt, scheme) = ks[(i / ctx.nshards) as usize % ks.len()];
             let nent = below(&mut r, 9) as usize;
-            let mut p: Vec<BEntry> = Vec::new();
-            for _ in 0..nent {
-                let port = || -> u16 { 0 };
-                let _ = port;
-                p.push(match below(&mut r, 13) {
-                    0 => BEntry::Seq(if below(&mut r, 2) == 0 { *crate::util::pick(&mut r, &gen::SEQ_EDGES) } else { rand::RngCore::next_u64(&mut r) }),
-                    1 => BEntry::Ip4([below(&mut r, 256) as u8, 0, 0, 1]),
-                    2 => BEntry::Ip6([below(&mut r, 256) as u8; 16]),
-                    3 => BEntry::Ip(*crate::util::pick(&mut r, &["::ffff:1.2.3.4".parse().unwrap(), "9.9.9.9".parse().unwrap(), "::".parse().unwrap(), "fe80::1".parse().unwrap()])),
-                    4 => BEntry::Tcp4(*crate::util::pick(&mut r, &gen::PORT_EDGES)),
-                    5 => BEntry::Tcp6(*crate::util::pick(&mut r, &gen::PORT_EDGES)),
-                    6 => BEntry::Udp4(rand::RngCore::next_u32(&mut r) as u16),
-                    7 => BEntry::Udp6(*crate::util::pick(&mut r, &gen::PORT_EDGES)),
-                    8 => BEntry::Client(gen::random_string(&mut r).chars().take(12).collect(), "v".into(), if below(&mut r, 2) == 0 { None } else { Some("b".into()) }),
-                    9 => {
-                        let n = [0usize, 1, 55, 56, 3][below(&mut r, 5) as usize];
-                        BEntry::Add(gen::custom_key(&mut r), Val::B(crate::util::rand_bytes(&mut r, n)))
-                    }
-                    10 => BEntry::Add(gen::custom_key(&mut r), Val::U64(rand::RngCore::next_u64(&mut r) >> below(&mut r, 64))),
-                    11 => BEntry::AddRaw(gen::custom_key(&mut r), rlp::enc_item(&gen::random_tree(&mut r, 2))),
-                    _ => {
-                        let n = below(&mut r, 6) as usize;
-                        BEntry::AddRaw(gen::custom_key(&mut r), crate::util::rand_bytes(&mut r, n))
-                    }
-                });
-            }
+            let p = random_plan(&mut r, nent);
             let h = mk_history(scheme, OWN, OTHER, &Init::Build(p), vec![Step { op: Op::SetTcp4(7), signer: Signer::Own }]);
             run_hist_kt(ctx, kt, false, &h, opts);
             ctx.count("random-builder-plans");
@@ -244,6 +220,7 @@ pub fn builder_plans(ctx: &mut Ctx, opts: &RunOpts) {
     // builder re-use: build() twice from one builder (it stores id and the key in its own content), then
     // once more with another key of the same scheme — each result must be the model's
     builder_reuse(ctx);
+    incremental_builder(ctx);
     // builder with fault on the signing call
     for (kt, scheme) in kinds() {
         n += 1;
@@ -307,6 +284,76 @@ pub fn fault_histories(ctx: &mut Ctx, count: u64, opts: &RunOpts) {
     }
 }
 
+/// Every mutator of the sub-alphabet as a ONE-step history whose only signing call fails, signed by the record's
+/// own key and by another key of the scheme (then the failing call is a re-keying attempt).
+pub fn fault_len1(ctx: &mut Ctx, opts: &RunOpts) {
+    let mut n = 0u64;
+    for (kt, scheme) in kinds() {
+        let own_pub = own_ref(scheme, OWN).pub_bytes();
+        let other_pub = own_ref(scheme, OTHER).pub_bytes();
+        for op in sub_alphabet(scheme, 1, &own_pub, &other_pub) {
+            for who in [Signer::Own, Signer::Other] {
+                n += 1;
+                if !ctx.mine(n) {
+                    continue;
+                }
+                if ctx.expired() {
+                    return;
+                }
+                let mut h = mk_history(scheme, OWN, OTHER, &Init::Build(vec![BEntry::Udp4(30303), BEntry::Add(b"x".to_vec(), Val::U8(1))]), vec![Step { op: op.clone(), signer: who }, Step { op: Op::SetTcp4(5), signer: Signer::Own }]);
+                h.fault = Some((who, if who == Signer::Own { 2 } else { 1 }));
+                run_hist_kt(ctx, kt, true, &h, opts);
+                ctx.count("fault-len1-histories");
+            }
+        }
+    }
+}
+
+/// Records made by the library's own builder and mutators, fed back to the decoder monitors: a fault that is the
+/// same in signing and in verifying (the signed message built wrongly for some shape of content) makes the library
+/// accept its own records while RefSig does not. Content sizes are swept across the places where the RLP list header
+/// of the signed message changes form (55/56 and 255/256 bytes of content).
+pub fn lib_made_records(ctx: &mut Ctx) {
+    let opts = RunOpts { full_state_checks: false, keep_states: false };
+    ctx.judge_lib_made = true;
+    let mut n = 0u64;
+    for (kt, scheme) in kinds() {
+        let own_pub = own_ref(scheme, OWN).pub_bytes();
+        let other_pub = own_ref(scheme, OTHER).pub_bytes();
+        for (iname, _, init) in inits(scheme, OWN).into_iter().filter(|(n, _, _)| n == "built-minimal" || n == "built-typical" || n == "built-seq-65535" || n == "built-seq-4294967295") {
+            for op in sub_alphabet(scheme, 1, &own_pub, &other_pub) {
+                n += 1;
+                if !ctx.mine(n) {
+                    continue;
+                }
+                if ctx.expired() {
+                    ctx.judge_lib_made = false;
+                    return;
+                }
+                let _ = &iname;
+                let h = mk_history(scheme, OWN, OTHER, &init, vec![Step { op: op.clone(), signer: Signer::Own }, Step { op: Op::SetTcp6(4), signer: Signer::Other }]);
+                run_hist_kt(ctx, kt, false, &h, &opts);
+            }
+        }
+        for seq in [1u64, 300, 70_000, 0x0100_0000] {
+            for len in (0..=40usize).chain(175..=215) {
+                n += 1;
+                if !ctx.mine(n) {
+                    continue;
+                }
+                if ctx.expired() {
+                    ctx.judge_lib_made = false;
+                    return;
+                }
+                let h = mk_history(scheme, OWN, OTHER, &Init::Build(vec![BEntry::Seq(seq)]), vec![Step { op: Op::Insert(b"p".to_vec(), Val::B(vec![0x33; len])), signer: Signer::Own }, Step { op: Op::RemoveKey(b"p".to_vec()), signer: Signer::Own }]);
+                run_hist_kt(ctx, kt, false, &h, &opts);
+                ctx.count("lib-made.content-size-cases");
+            }
+        }
+    }
+    ctx.judge_lib_made = false;
+}
+
 /// A custom scheme whose signatures alone exceed 300 bytes: every build and update must fail with an error value
 /// (never panic, never hand out a record), in every build profile.
 pub fn long_signature_histories(ctx: &mut Ctx, opts: &RunOpts) {
@@ -335,6 +382,24 @@ pub fn long_signature_histories(ctx: &mut Ctx, opts: &RunOpts) {
         run_hist_kt(ctx, KT::Toy, false, &h, opts);
         ctx.count("long-signature-cases");
     }
+    // the other end: a key whose signatures are 1..8 bytes (records of ~50 bytes, one-byte signature items), as
+    // the record's own key and as the re-keying key
+    let short = crate::keys::SHORT_TOY_LABEL | 1;
+    let short_pub = own_ref(Scheme::Toy, short).pub_bytes();
+    let own_pub = own_ref(Scheme::Toy, OWN).pub_bytes();
+    for (a, b, ap, bp) in [(short, OWN, &short_pub, &own_pub), (OWN, short, &own_pub, &short_pub)] {
+        for op in sub_alphabet(Scheme::Toy, 1, ap, bp) {
+            for who in [Signer::Own, Signer::Other] {
+                n += 1;
+                if !ctx.mine(n) {
+                    continue;
+                }
+                let h = mk_history(Scheme::Toy, a, b, &Init::Build(vec![]), vec![Step { op: op.clone(), signer: who }, Step { op: Op::SetUdp4(3), signer: Signer::Own }]);
+                run_hist_kt(ctx, KT::Toy, false, &h, opts);
+                ctx.count("short-signature-cases");
+            }
+        }
+    }
 }
 
 pub fn c05(ctx: &mut Ctx) {
@@ -343,6 +408,8 @@ pub fn c05(ctx: &mut Ctx) {
     exhaustive_len1(ctx, false, &opts, &all);
     long_signature_histories(ctx, &opts);
     byte_value_histories(ctx, &opts);
+    concurrency_probe(ctx, false, true);
+    fault_len1(ctx, &opts);
     fault_histories(ctx, if q { 400 } else { 20_000 }, &opts);
     builder_plans(ctx, &opts);
     if q {
@@ -385,6 +452,7 @@ pub fn c07(ctx: &mut Ctx) {
     let opts = RunOpts { full_state_checks: false, keep_states: false };
     let q = ctx.quick();
     exhaustive_len1(ctx, false, &opts, &all);
+    concurrency_probe(ctx, false, true);
     exhaustive_sub(ctx, 2, &["built-seq", "decoded-size-298"], &opts, &all);
     random_histories(ctx, if q { 600 } else { 40_000 }, 30, 150, &opts, &all);
     // encoding/decoding preserves the number: RefSig-signed records with seq = v
@@ -434,6 +502,7 @@ pub fn c06(ctx: &mut Ctx) {
     // (1) non-fault causes: the full alphabet (ill-typed, malformed, unsupported id) from all inits, incl.
     //     the size-300 and seq-MAX ones
     exhaustive_len1(ctx, false, &opts, &all);
+    concurrency_probe(ctx, false, true);
     // (2) signer faults by enumeration
     let fault_kinds: Vec<(KT, Scheme)> = kinds()
         .into_iter()
@@ -668,6 +737,8 @@ pub fn c10(ctx: &mut Ctx) {
     c10_decode_part(ctx);
     let opts = RunOpts { full_state_checks: false, keep_states: false };
     exhaustive_len1(ctx, false, &opts, &all);
+    fault_len1(ctx, &opts);
+    fault_histories(ctx, if ctx.quick() { 200 } else { 10_000 }, &opts);
     random_histories(ctx, if ctx.quick() { 400 } else { 30_000 }, 30, 120, &opts, &all);
     same_key_different_content(ctx);
 }
@@ -768,6 +839,7 @@ pub fn c03_hist_part(ctx: &mut Ctx) {
     if !cfg!(miri) {
         byte_value_histories(ctx, &opts);
         long_signature_histories(ctx, &opts);
+        concurrency_probe(ctx, true, true);
     }
     if cfg!(miri) {
         // seeded short Toy histories with the complete accessor sweep, until the deadline
@@ -784,6 +856,120 @@ pub fn c03_hist_part(ctx: &mut Ctx) {
     random_histories(ctx, if q { 500 } else { 30_000 }, 30, 150, &opts, &all);
 }
 
+
+/// a random sequence of builder calls: every method, repeated and overriding each other, in any order
+pub fn random_plan(mut r: &mut rand_chacha::ChaCha8Rng, nent: usize) -> Vec<BEntry> {
+    let mut p: Vec<BEntry> = Vec::new();
+            for _ in 0..nent {
+                p.push(match below(&mut r, 13) {
+                    0 => BEntry::Seq(if below(&mut r, 2) == 0 { *crate::util::pick(&mut r, &gen::SEQ_EDGES) } else { rand::RngCore::next_u64(&mut r) }),
+                    1 => BEntry::Ip4([below(&mut r, 256) as u8, 0, 0, 1]),
+                    2 => BEntry::Ip6([below(&mut r, 256) as u8; 16]),
+                    3 => BEntry::Ip(*crate::util::pick(&mut r, &["::ffff:1.2.3.4".parse().unwrap(), "9.9.9.9".parse().unwrap(), "::".parse().unwrap(), "fe80::1".parse().unwrap()])),
+                    4 => BEntry::Tcp4(*crate::util::pick(&mut r, &gen::PORT_EDGES)),
+                    5 => BEntry::Tcp6(*crate::util::pick(&mut r, &gen::PORT_EDGES)),
+                    6 => BEntry::Udp4(rand::RngCore::next_u32(&mut r) as u16),
+                    7 => BEntry::Udp6(*crate::util::pick(&mut r, &gen::PORT_EDGES)),
+                    8 => BEntry::Client(gen::random_string(&mut r).chars().take(12).collect(), "v".into(), if below(&mut r, 2) == 0 { None } else { Some("b".into()) }),
+                    9 => {
+                        let n = [0usize, 1, 55, 56, 3][below(&mut r, 5) as usize];
+                        BEntry::Add(gen::custom_key(&mut r), Val::B(crate::util::rand_bytes(&mut r, n)))
+                    }
+                    10 => BEntry::Add(gen::custom_key(&mut r), Val::U64(rand::RngCore::next_u64(&mut r) >> below(&mut r, 64))),
+                    11 => BEntry::AddRaw(gen::custom_key(&mut r), rlp::enc_item(&gen::random_tree(&mut r, 2))),
+                    _ => {
+                        let n = below(&mut r, 6) as usize;
+                        BEntry::AddRaw(gen::custom_key(&mut r), crate::util::rand_bytes(&mut r, n))
+                    }
+                });
+            }
+    p
+}
+
+/// ONE builder object, a build after every single call (own key, every third time the other key): each result
+/// must be exactly what a FRESH builder given the same calls returns (those are judged against the model by
+/// the plans above), and passes the complete state check.
+fn incremental_builder(ctx: &mut Ctx) {
+    use crate::keys::*;
+    use crate::obs::observe;
+    use enr::Enr;
+    fn go<KK: KeyKind>(ctx: &mut Ctx, scheme: Scheme, plan: &[BEntry], i: u64) {
+        let own = KK::make(scheme, &secret_from(scheme, OWN));
+        let other = KK::make(scheme, &secret_from(scheme, OTHER));
+        let replay = || json!({"kind": "note", "what": "incremental-builder", "kt": KK::name(), "plan": serde_json::to_value(plan).unwrap(), "case": i});
+        let mut b = Enr::<KK::K>::builder();
+        for (n, e) in plan.iter().enumerate() {
+            let key = if n % 3 == 2 { &other } else { &own };
+            let r = crate::util::guard(|| {
+                crate::hist::apply_entry(&mut b, e);
+                let reused = b.build(key);
+                let fresh = crate::hist::apply_build::<KK::K>(&plan[..=n], key);
+                (reused.map(|e| (observe(&e), e)), fresh.map(|e| observe(&e)))
+            });
+            ctx.count("evaluations");
+            ctx.count("incremental-builds");
+            match r {
+                Err(p) => {
+                    ctx.violate("C03", "panic", &format!("incremental-builder/{}", crate::util::panic_sig(&p)), || p.clone(), replay);
+                    return;
+                }
+                Ok((Ok((Ok(a), e)), Ok(Ok(f)))) => {
+                    if a.pairs != f.pairs || a.seq != f.seq || a.node_id != f.node_id || a.verify != f.verify {
+                        for prop in ["C08", "C05", "C04", "C07", "C10"] {
+                            ctx.violate(prop, "reused-builder-differs-from-fresh-builder", &format!("{}/call-{n}", KK::name()), || {
+                                format!("{}: build after call #{n} on a re-used builder: seq {} vs {}, pairs equal {}, node id equal {}, verify {} vs {}", KK::name(), a.seq, f.seq, a.pairs == f.pairs, a.node_id == f.node_id, a.verify, f.verify)
+                            }, replay);
+                        }
+                    }
+                    if !crate::hist::check_state::<KK>(ctx, &e, &a, "incremental-builder", &RunOpts::default(), &replay) {
+                        return;
+                    }
+                }
+                Ok((Err(_), Err(_))) => {}
+                Ok((a, f)) => {
+                    let (ra, rf) = (a.is_ok(), f.is_ok());
+                    if ra != rf {
+                        for prop in ["C08", "C09"] {
+                            ctx.violate(prop, "reused-builder-differs-from-fresh-builder", &format!("{}/call-{n}/ok-vs-err", KK::name()), || {
+                                format!("{}: build after call #{n}: re-used builder ok={ra}, fresh builder ok={rf}", KK::name())
+                            }, replay);
+                        }
+                    } else {
+                        ctx.violate("C03", "panic", "incremental-builder/observe", || "accessors panic on a built record".into(), replay);
+                    }
+                    return;
+                }
+            }
+        }
+    }
+    let total = ctx.vol(if ctx.quick() { 160 } else { 12_000 });
+    let ks = kinds();
+    for i in 0..total {
+        if !ctx.mine(i) {
+            continue;
+        }
+        if ctx.expired() {
+            return;
+        }
+        let mut r = rng_for(ctx.seed, &["incr-builder"], i);
+        let (kt, scheme) = ks[(i / ctx.nshards) as usize % ks.len()];
+        let nent = 2 + below(&mut r, 7) as usize;
+        let mut plan = random_plan(&mut r, nent);
+        // a call that changes ONLY the sequence number, right after a build
+        let at = 1 + below(&mut r, plan.len() as u64) as usize;
+        plan.insert(at.min(plan.len()), BEntry::Seq(2 + below(&mut r, 1000)));
+        match kt {
+            KT::K256 => go::<K256K>(ctx, scheme, &plan, i),
+            #[cfg(feature = "libsecp")]
+            KT::Libsecp => go::<LibsecpK>(ctx, scheme, &plan, i),
+            #[cfg(not(feature = "libsecp"))]
+            KT::Libsecp => {}
+            KT::Ed => go::<EdK>(ctx, scheme, &plan, i),
+            KT::Comb => go::<CombK>(ctx, scheme, &plan, i),
+            KT::Toy => go::<ToyK>(ctx, scheme, &plan, i),
+        }
+    }
+}
 
 fn builder_reuse(ctx: &mut Ctx) {
     use crate::keys::*;
